@@ -1,7 +1,16 @@
 (* C15, JSON part: json_find (util/json.c, as modelled in Util/Json.v on checked memory with
    the tables regenerated from the C text) never touches memory outside its input, terminates
    and returns a pointer inside [buf, end] - for EVERY byte string and EVERY key string.
-   Only statements, each closed by [exact]. *)
+   Only statements, each closed by [exact].
+
+   Scope: the theorems are about INDEX SAFETY (every read inside the buffer / the key string, no
+   pointer formed above end), TERMINATION (the remaining-length fuel always suffices, at every
+   nesting depth) and RANGE (the returned offset is in [0, length buf]).  The Gallina model has no
+   stack: the C functions skip_value <-> skip_array / skip_object recurse once per nesting level
+   without a depth limit, and what that recursion costs in machine stack is outside the model.
+   On the real code ~262,000 unclosed brackets exhaust an 8 MiB stack (known finding F11,
+   signature json-nesting-depth-stack-exhaustion); areas/json.py check_json_depth probes the
+   compiled code for it. *)
 From Coq Require Import NArith List.
 From LCP Require Import Base.CheckedMem Gen.Repo_json Util.Json Util.JsonRepo Util.JsonSafe.
 Import ListNotations.
